@@ -170,6 +170,10 @@ func kinds(thorough bool) []kindSpec {
 	for _, x := range []string{"%41%42%43", "50%25off", "%E4%B8%AD", "100%", "1+1", "a%2Bb", "%%%", "%4", "+", "a+b+c+d"} {
 		strs = append(strs, rv(x))
 	}
+	// characters that message escaping rewrites (quote, backslash, NUL, LF, CR, TAB, SUB): each counts as one character
+	for _, x := range []string{"it's", "a\"b", "a\\b", "\n\n", "a\tb", "\x00x", "\x1a", "\r\n", "''''", "'", "\\\\\\", "a'b\"c\\d\ne"} {
+		strs = append(strs, rv(x))
+	}
 	ks = append(ks, kindSpec{"string", strs})
 	win := func() []int64 {
 		var w []int64
